@@ -255,11 +255,53 @@ func boolCtors(c *Ctx) []boolOptionCtor {
 			konst bool
 		}
 		var rets []ret
+		// a constructor may delegate to a private helper (`return boolOption(jsonflags.X, v)`):
+		// the helper's body is walked with its parameters bound to the arguments
+		bound := map[types.Object]ast.Expr{}
+		var resolve func(e ast.Expr, depth int) ast.Expr
+		resolve = func(e ast.Expr, depth int) ast.Expr {
+			e = ast.Unparen(e)
+			if o := IdentObj(info, e); o != nil && depth < 4 {
+				if a, ok := bound[o]; ok {
+					return resolve(a, depth+1)
+				}
+			}
+			return e
+		}
+		var evalU64 func(e ast.Expr, depth int) (uint64, bool)
+		evalU64 = func(e ast.Expr, depth int) (uint64, bool) {
+			e = resolve(e, 0)
+			if v, ok := ConstU64(info, e); ok {
+				return v, true
+			}
+			if be, ok := e.(*ast.BinaryExpr); ok && be.Op == token.OR && depth < 4 {
+				a, okA := evalU64(be.X, depth+1)
+				b, okB := evalU64(be.Y, depth+1)
+				return a | b, okA && okB
+			}
+			return 0, false
+		}
 		fl := &Flow[st]{Fn: f}
+		fl.Inline = func(call *ast.CallExpr) *FuncInfo {
+			cf := Callee(info, call)
+			if cf == nil || ast.IsExported(cf.Name()) || cf.Pkg() == nil || f.Pkg == nil || cf.Pkg() != f.Pkg.Types {
+				return nil
+			}
+			return p.FuncOf(cf)
+		}
+		fl.Bind = func(callee *FuncInfo, call *ast.CallExpr, s st) st {
+			if callee.Obj != nil {
+				csig := callee.Obj.Type().(*types.Signature)
+				for i := 0; i < csig.Params().Len() && i < len(call.Args); i++ {
+					bound[csig.Params().At(i)] = call.Args[i]
+				}
+			}
+			return s
+		}
 		fl.Node = func(n ast.Node, s st) []st {
 			if r, ok := n.(*ast.ReturnStmt); ok {
 				if len(r.Results) == 1 {
-					v, isConst := ConstU64(info, r.Results[0])
+					v, isConst := evalU64(r.Results[0], 0)
 					rets = append(rets, ret{v, s.v, isConst})
 				}
 				return nil
@@ -267,7 +309,7 @@ func boolCtors(c *Ctx) []boolOptionCtor {
 			return []st{s}
 		}
 		fl.Leaf = func(e ast.Expr, s st) (t, fs []st) {
-			if o := IdentObj(info, e); o != nil && o == param {
+			if o := IdentObj(info, resolve(e, 0)); o != nil && o == param {
 				return []st{{1}}, []st{{2}}
 			}
 			return []st{s}, []st{s}
